@@ -466,8 +466,14 @@ structure Schema where
   /-- WELCOME: every details key matching `_CUSTOM_ATTRIBUTE` is collected into the field `custom`
   and written back at top level by `marshal` -/
   custom : Bool := false
+  /-- the constructor's checks on unvalidated values are `assert`s (`AssertionError`, finding F3).  Flip to `false`
+  once the class raises `ProtocolError` for them instead: the checks stay, only their exception class changes. -/
+  ctorAsserts : Bool := true
 
 namespace Schema
+
+def ctorErr (σ : Schema) : ErrClass := if σ.ctorAsserts then .assertion else .protocol
+
 
 /-- number of positions after the type code -/
 def k (σ : Schema) : Nat := σ.pos.length
@@ -507,13 +513,13 @@ def parseOpts (O : Oracles) (d : Dict) : List OptStep → Except Err Msg
       pure ((s.field, v) :: rest)
 
 /-- the constructor's assertions on option values -/
-def ctorOpts (m : Msg) : List OptStep → Except Err Unit
+def ctorOpts (cls : ErrClass) (m : Msg) : List OptStep → Except Err Unit
   | [] => pure ()
-  | s :: ss => if s.cty.ok (m.get s.field) then ctorOpts m ss else fail .assertion s.field
+  | s :: ss => if s.cty.ok (m.get s.field) then ctorOpts cls m ss else fail cls s.field
 
-def ctorCross (O : Oracles) (m : Msg) : List Cross → Except Err Unit
+def ctorCross (cls : ErrClass) (O : Oracles) (m : Msg) : List Cross → Except Err Unit
   | [] => pure ()
-  | c :: cs => if c.ok O m then ctorCross O m cs else fail .assertion c.site
+  | c :: cs => if c.ok O m then ctorCross cls O m cs else fail cls c.site
 
 /-- `_validate_kwargs` (called from `_init_app_payload`, after all assertions) -/
 def kwargsCheck (m : Msg) : Except Err Unit :=
@@ -542,8 +548,8 @@ def parseStage (σ : Schema) (O : Oracles) (w : List WVal) : Except Err Msg :=
 /-- the constructor `Klass(...)` called at the end of `parse`: its `assert`s on values `parse` did not validate
 (`AssertionError`), then `_validate_kwargs` (`ProtocolError`) -/
 def ctorStage (σ : Schema) (O : Oracles) (m : Msg) : Except Err Unit := do
-  ctorOpts m σ.opts
-  ctorCross O m σ.cross
+  ctorOpts σ.ctorErr m σ.opts
+  ctorCross σ.ctorErr O m σ.cross
   (if σ.tail.isSome then kwargsCheck m else pure ())
 
 /-- `Klass.parse(wmsg)` for a `wmsg` whose first element is the class's type code -/
